@@ -11,6 +11,8 @@ mod c04;
 mod ssk;
 mod dens;
 mod ord;
+mod c16;
+mod c07;
 use util::*;
 
 fn main() {
@@ -75,6 +77,15 @@ fn main() {
                 "C05" => {
                     ssk::corr_merge(&mut ctx);
                     c04::corr_smh(&mut ctx)
+                }
+                "C16" => c16::corr(&mut ctx),
+                "C07" => {
+                    c07::corr_bounds(&mut ctx);
+                    ssk::corr_sets(&mut ctx)
+                }
+                "C06" => {
+                    c07::corr_card(&mut ctx);
+                    ssk::corr_sets(&mut ctx)
                 }
                 "C09" | "C08" | "DENS" => dens::corr(&mut ctx),
                 "C11" | "C10" | "ORD" => ord::corr(&mut ctx),
